@@ -155,6 +155,15 @@ func (s *loopSet) translate(name string) string {
 				break
 			}
 		}
+		if leanRenamed[id.Name] {
+			// a Lean keyword that is an ordinary Go identifier: the variable gets another Lean name
+			for k := 2; ; k++ {
+				lname = fmt.Sprintf("%s_%d", id.Name, k)
+				if !usedNames[lname] {
+					break
+				}
+			}
+		}
 		for _, prev := range byName[id.Name] {
 			if prev == o {
 				return
@@ -196,6 +205,13 @@ func (s *loopSet) translate(name string) string {
 		}
 		params = append(params, fmt.Sprintf("(%s : %s)", t.vars[f], t.kindOf(f.Type(), fd).lean()))
 	}
+	if id := t.recvParam; id != nil {
+		// the value receiver of a named slice type: the first parameter
+		addVar(id)
+		o := t.info.Defs[id]
+		t.params[o] = true
+		params = append(params, fmt.Sprintf("(%s : %s)", t.vars[o], t.kindOf(o.Type(), id).lean()))
+	}
 	for _, f := range fd.Type.Params.List {
 		if len(f.Names) == 0 {
 			t.fail(f, "unnamed parameter")
@@ -213,7 +229,8 @@ func (s *loopSet) translate(name string) string {
 			if t.kindOf(o.Type(), id) == kHash {
 				t.fail(id, "%s (a parameter of type hash.Hash is not supported)", hashShape)
 			}
-			params = append(params, fmt.Sprintf("(%s : %s)", id.Name, t.kindOf(o.Type(), id).lean()))
+			t.noStrings(t.kindOf(o.Type(), id), id, "a parameter")
+			params = append(params, fmt.Sprintf("(%s : %s)", t.vars[o], t.kindOf(o.Type(), id).lean()))
 		}
 	}
 	var rt []string
@@ -226,6 +243,7 @@ func (s *loopSet) translate(name string) string {
 			if k == kHash || k == kMarsh || k == kMarshs {
 				t.fail(f, "a result of type %s is not supported", t.typeOf(f.Type).Type)
 			}
+			t.noStrings(k, f, "a result")
 			t.rets = append(t.rets, k)
 			rt = append(rt, k.lean())
 		}
@@ -293,6 +311,9 @@ func (s *loopSet) translate(name string) string {
 			doc += "; the fields it assigns (" + strings.Join(ns, ", ") + ") are returned after the declared results: their value on return"
 		}
 	}
+	if t.recvParam != nil {
+		doc += "; the receiver `" + t.recvParam.Name + "` (a value of a named slice type) is the first parameter"
+	}
 	if len(t.outBufs) > 0 {
 		var ns []string
 		for _, o := range t.outBufs {
@@ -313,7 +334,7 @@ func (s *loopSet) translate(name string) string {
 		t.closeSelfCap()
 	}
 	if len(t.absDeps) > 0 {
-		var ns, other, hashes []string
+		var ns, other, hashes, externs []string
 		for n := range t.absDeps {
 			ns = append(ns, n)
 		}
@@ -323,6 +344,8 @@ func (s *loopSet) translate(name string) string {
 			ps = append(ps, fmt.Sprintf("(%s : %s)", n, t.absDeps[n]))
 			if f, isHash := hashDepNames[n]; isHash && t.absDeps[n] == hashSumType {
 				hashes = append(hashes, fmt.Sprintf("%s: the hash function in the field `%s` of the receiver (a crypto.Hash) as the function from the bytes written to a hash object it makes to the digest Sum(nil) returns — see the assumptions in the header, stage 7; passed in by the caller", n, f))
+			} else if note, isExt := externDepNotes[n]; isExt && t.absDeps[n] == note[0] {
+				externs = append(externs, n+": "+note[1])
 			} else {
 				other = append(other, n)
 			}
@@ -333,6 +356,9 @@ func (s *loopSet) translate(name string) string {
 		}
 		for _, h := range hashes {
 			doc += "; PARAMETER " + h
+		}
+		for _, e := range externs {
+			doc += "; PARAMETER " + e
 		}
 	}
 	t.register(leanName)
@@ -732,6 +758,8 @@ func (t *loopTr) simple(st ast.Stmt) []binding {
 					val = "none"
 				case k == kHash || k == kMarsh || k == kMarshs:
 					t.fail(s, "a variable of type %s without an initial value (nil) is not supported", t.objOf(id).Type())
+				case k == kStrings:
+					t.noStrings(k, s, "a variable without an initial value")
 				case isPlainArray(t.objOf(id).Type()):
 					n, _ := arrayLen(t.objOf(id).Type())
 					val = fmt.Sprintf("(List.replicate %d 0#%d)", n, k.elem().width())
@@ -1012,6 +1040,13 @@ func (t *loopTr) rangeStmt(s *ast.RangeStmt, ind string, m blockMode, rest func(
 		}
 	}
 	if key != nil && val != nil {
+		if xtv, ok := t.info.Types[s.X]; ok && xtv.Value == nil {
+			if sl, isSlice := xtv.Type.Underlying().(*types.Slice); isSlice {
+				if b, isBasic := sl.Elem().(*types.Basic); isBasic && b.Kind() == types.String {
+					return t.rangeIndexed(s, key, val, ind, m, rest) // loops_strs.go
+				}
+			}
+		}
 		t.fail(s, "range with both key and value is not supported")
 	}
 	ctx := t.rangeCtx(s)
@@ -1031,6 +1066,10 @@ func (t *loopTr) rangeStmt(s *ast.RangeStmt, ind string, m blockMode, rest func(
 	case xk.isSlice() && val != nil:
 		list, binder = xs, fmt.Sprintf("(%s : %s)", t.vars[t.info.Defs[val]], xk.elem().lean())
 	case xk.isSlice():
+		list = "((List.range " + xs + ".length).map (BitVec.ofNat 64))"
+	case xk == kStrings && val != nil:
+		list, binder = xs, fmt.Sprintf("(%s : %s)", t.vars[t.info.Defs[val]], kString.lean())
+	case xk == kStrings:
 		list = "((List.range " + xs + ".length).map (BitVec.ofNat 64))"
 	case xk == kInt && val == nil:
 		list = "((List.range " + xs + ".toInt.toNat).map (BitVec.ofNat 64))"
